@@ -104,6 +104,38 @@ def one_case(rng, quick):
             y0, x0 = 50 * u + 10, 40 * u + 10
         h, w = rng.randrange(1, 40), rng.randrange(1, 40)
         rects.append((y0, x0, h, w))
+    # prelude (sometimes): the same PyramidIO object first serves a serial multi-TAN tiling
+    # of another tile; whatever state that leaves on the object must not weaken later updates
+    prelude = rng.random() < 0.4
+    if prelude:
+        from toasty.multi_tan import MultiTanProcessor
+        from toasty.study import StudyTiling
+
+        class _Img:
+            def __init__(self, arr):
+                self._img = Image.from_array(arr)
+                self.mode = self._img.mode
+                self.height = arr.shape[0]
+
+            def get_parity_sign(self):
+                return pio.get_default_vertical_parity_sign()
+
+            def update_into_maskable_buffer(self, *a):
+                return self._img.update_into_maskable_buffer(*a)
+
+        class _Coll:
+            def images(self):
+                yield _Img(np.full((4, 4), 55.0, dtype=dtype))
+
+        class _Desc:
+            sub_tiling = StudyTiling(2000, 2000).compute_for_subimage(0, 0, 4, 4)
+
+        proc = MultiTanProcessor(_Coll())
+        proc._descs = [_Desc()]
+        proc._tiling = StudyTiling(2000, 2000)
+        proc._n_todo = 1
+        with contextlib.redirect_stdout(io.StringIO()):
+            proc.tile(pio, parallel=1)
     orig_lock = filelock.SoftFileLock
     orig_read = PyramidIO.read_image
     orig_write = PyramidIO.write_image
@@ -222,7 +254,7 @@ def one_case(rng, quick):
     elif final_arr is None:
         contrib_ok = False
     locks_left = [f for _d, _s, fl in os.walk(base) for f in fl if f.endswith(".lock")]
-    return dict(k=k, fmt=fmt, present=present, overlap=overlap, mixed=mixed_format_arg, outcome=outcome,
+    return dict(k=k, fmt=fmt, present=present, overlap=overlap, mixed=mixed_format_arg, prelude=prelude, outcome=outcome,
                 trace=trace, order=order, errors=errors, pix_ok=pix_ok, contrib_ok=contrib_ok,
                 locks_left=locks_left, exits=[S.actors[f"W{u}"].exitcode for u in range(k)], mode=mode, rects=rects)
 
@@ -292,7 +324,7 @@ def run(ctx, V):
     hist, nontrivial = {}, set()
     for i, r in enumerate(res):
         why = property_fails(r)
-        key = f"k{r['k']}/{r['fmt']}/present{int(r['present'])}/overlap{int(r['overlap'])}/{r['mode']}"
+        key = f"k{r['k']}/{r['fmt']}/present{int(r['present'])}/overlap{int(r['overlap'])}/prelude{int(r['prelude'])}/{r['mode']}"
         hist[key] = hist.get(key, 0) + 1
         n_failed = sum(1 for en, ch in r["trace"] if ch[0] == "TryAcq") - r["k"]
         if n_failed > 0:
